@@ -224,3 +224,73 @@ def diff_paths(a, b, path=""):
     elif a != b:
         out.append(path)
     return out
+
+
+# ---------- per-area comparison of one case ----------
+
+def _files_dict_model(f):
+    if not isinstance(f, dict) or "ok" not in f:
+        return f
+    d = {}
+    for p, c in f["ok"]:
+        d[os.path.normpath(p)] = c
+    return {"ok": d}
+
+
+def _files_dict_impl(f):
+    if not isinstance(f, dict) or "ok" not in f:
+        return f
+    return {"ok": {os.path.normpath(p): c for p, c in f["ok"]}}
+
+
+def areas(case, impl, model):
+    """-> dict area -> (impl value, model value) for every area on which the two sides differ.
+    Areas: outcome (ok / error tag / crash at parse and gen), doc, script, subs, joined, paths, symbols,
+    header, deps, files."""
+    out = {}
+    impl = normalise(impl)
+    model = normalise(model)
+    ic, mc = is_crash(impl), is_crash(model)
+    if ic or mc:
+        if not (ic and mc):
+            out["outcome"] = (impl if ic else _outcome(impl), model if mc else _outcome(model))
+        return out
+    io, mo = _outcome(impl), _outcome(model)
+    if io != mo:
+        out["outcome"] = (io, mo)
+        return out
+    ip, mp = impl.get("parse", {}), model.get("parse", {})
+    if "ok" in ip and ip["ok"] != mp.get("ok"):
+        out["doc"] = (ip["ok"], mp.get("ok"))
+    ig, mg = impl.get("gen", {}).get("ok"), model.get("gen", {}).get("ok")
+    if ig is None or mg is None:
+        return out
+    def cmp_writer(prefix, a, b):
+        for k in ("script", "paths", "symbols", "header", "deps"):
+            if a.get(k) != b.get(k):
+                out[prefix + k] = (a.get(k), b.get(k))
+    cmp_writer("", ig["main"], mg["main"])
+    if "subs" in ig or "subs" in mg:
+        isubs, msubs = ig.get("subs", []), mg.get("subs", [])
+        if [s[0] for s in isubs] != [s[0] for s in msubs]:
+            out["subs"] = ([s[0] for s in isubs], [s[0] for s in msubs])
+        else:
+            for (n, a), (_, b) in zip(isubs, msubs):
+                cmp_writer("sub:", a, b)
+        if ig.get("joined") != mg.get("joined"):
+            out["joined"] = (ig.get("joined"), mg.get("joined"))
+    if "files" in ig:
+        a, b = _files_dict_impl(ig["files"]), _files_dict_model(mg.get("files"))
+        if a != b:
+            out["files"] = (a, b)
+    return out
+
+
+def _outcome(j):
+    p = j.get("parse", {})
+    if "err" in p:
+        return ("parse", p["err"])
+    g = j.get("gen", {})
+    if "err" in g:
+        return ("gen", g["err"])
+    return ("ok", "")
